@@ -71,7 +71,7 @@ def check(F, rep):
                 if one and var and copy_sources(now, op_base(var[0])) == exp_src:
                     ok = True
                     why = "next = max(_, expected + 1)"
-    rep.ob("strictly-greater", ok and copy_sources(now, nl) == {("call", "core::cmp::Ord::max", ())}, site(now, rb), "the installed value exceeds the expected (= last observed) value: %s" % why, skey(F, now, "next-gt-expected"))
+    rep.ob("strictly-greater", ok and {x[:1] + x[2:] for x in copy_sources(now, nl)} == {("call", ())} and all(re.match(r"^core::cmp::(Ord::max|max)$", x[1]) for x in copy_sources(now, nl)), site(now, rb), "the installed value exceeds the expected (= last observed) value: %s" % why, skey(F, now, "next-gt-expected"))
     # the new value is recomputed on every retry (not hoisted out of the loop)
     if len(mx) == 1:
         mb = mx[0][0]
